@@ -17,7 +17,10 @@ import (
 	"go/constant"
 	"go/token"
 	"go/types"
+	"runtime"
+	"sort"
 	"strings"
+	"sync"
 
 	"golang.org/x/tools/go/ssa"
 )
@@ -35,6 +38,7 @@ type pwPath struct {
 	ret       *ssa.Return       // the root function's return (nil for panic/loop)
 	results   []ssa.Value       // resolved return operands
 	end       string            // return | panic | loop
+	orderKey  string
 	revisits  int               // number of times a block was entered again (loop back edges taken)
 	revisited map[*ssa.BasicBlock]int // ... per block
 	loopHead  *ssa.BasicBlock   // for end == loop: the header that was re-entered
@@ -146,6 +150,7 @@ type pwState struct {
 }
 
 type pathWalker struct {
+	mu       *sync.Mutex
 	loadHook func(*pwPath, *ssa.UnOp) (constant.Value, bool)
 	unroll1  bool // loops: explore zero and one iteration (on re-entering a loop header the exit edge is forced)
 	seed     func(*pwPath, ssa.Value) (constant.Value, bool)
@@ -371,6 +376,35 @@ func (p *pwPath) knownNil(v ssa.Value) bool {
 	return false
 }
 
+// knownNonNil: a freshly built error / object, or a value this path has decided to be non-nil.
+func (p *pwPath) knownNonNil(v ssa.Value) bool {
+	v = p.resolve(v)
+	if definitelyNonNil(v) {
+		return true
+	}
+	switch v.(type) {
+	case *ssa.Alloc, *ssa.MakeMap, *ssa.MakeSlice, *ssa.MakeClosure, *ssa.MakeInterface:
+		return true
+	}
+	for _, d := range p.decisions {
+		bo, ok := d.cond.(*ssa.BinOp)
+		if !ok || (bo.Op != token.EQL && bo.Op != token.NEQ) {
+			continue
+		}
+		x, y := p.resolve(bo.X), p.resolve(bo.Y)
+		if isNilConst(x) {
+			x, y = y, x
+		}
+		if !isNilConst(y) || x != v {
+			continue
+		}
+		if d.truth == (bo.Op == token.NEQ) {
+			return true
+		}
+	}
+	return false
+}
+
 // decidedAs: the truth of cond on this path when it was decided (negations handled).
 func (p *pwPath) decidedAs(match func(ssa.Value) bool) (truth bool, idx int, found bool) {
 	for i, d := range p.decisions {
@@ -405,16 +439,82 @@ func (pw *pathWalker) walk(fn *ssa.Function) {
 	root := &pwFrame{fn: fn}
 	st := &pwState{frame: root, block: fn.Blocks[0], p: &pwPath{seed: pw.seed, loadHook: pw.loadHook, unknown: map[string]bool{}, consts: map[ssa.Value]constant.Value{}, alias: map[ssa.Value]ssa.Value{}, tuples: map[ssa.Value][]ssa.Value{}, mem: map[string]ssa.Value{}, stores: map[string]ssa.Value{}},
 		decided: map[ssa.Value]bool{}, arrived: map[*ssa.BasicBlock]int{}, visits: map[*ssa.BasicBlock]int{}, inlined: map[*ssa.Function]bool{fn: true}}
-	work := []*pwState{st}
-	for len(work) > 0 {
-		s := work[len(work)-1]
-		work = work[:len(work)-1]
-		if len(pw.paths) >= pw.maxPaths {
-			pw.overflow = true
-			return
-		}
-		work = append(work, pw.run(s)...)
+	// states are independent once forked: explore them on all cores; the result is put into a
+	// canonical order afterwards so that reports do not depend on scheduling
+	var (
+		mu      sync.Mutex
+		cond    = sync.NewCond(&mu)
+		work    = []*pwState{st}
+		running = 0
+	)
+	workers := runtime.NumCPU()
+	if workers > 16 {
+		workers = 16
 	}
+	var wg sync.WaitGroup
+	for i := 0; i < workers; i++ {
+		wg.Add(1)
+		go func() {
+			defer wg.Done()
+			for {
+				mu.Lock()
+				for len(work) == 0 && running > 0 && !pw.overflow {
+					cond.Wait()
+				}
+				if len(work) == 0 || pw.overflow {
+					mu.Unlock()
+					cond.Broadcast()
+					return
+				}
+				s := work[len(work)-1]
+				work = work[:len(work)-1]
+				running++
+				mu.Unlock()
+				next := pw.runLocked(s, &mu)
+				mu.Lock()
+				running--
+				work = append(work, next...)
+				if len(pw.paths) >= pw.maxPaths {
+					pw.overflow = true
+				}
+				mu.Unlock()
+				cond.Broadcast()
+			}
+		}()
+	}
+	wg.Wait()
+	sort.SliceStable(pw.paths, func(i, j int) bool { return pw.paths[i].order() < pw.paths[j].order() })
+}
+
+// order: a canonical key of the path (the decisions it took and where it ended).
+func (p *pwPath) order() string {
+	if p.orderKey != "" {
+		return p.orderKey
+	}
+	var sb strings.Builder
+	for _, d := range p.decisions {
+		if d.at != nil {
+			fmt.Fprintf(&sb, "%08d", int(d.at.Pos()))
+			fmt.Fprintf(&sb, ".%03d", d.at.Block().Index)
+		}
+		if d.truth {
+			sb.WriteByte('T')
+		} else {
+			sb.WriteByte('F')
+		}
+	}
+	sb.WriteString("|" + p.end)
+	if p.ret != nil {
+		fmt.Fprintf(&sb, "%08d", int(p.ret.Pos()))
+	}
+	fmt.Fprintf(&sb, "|%d", len(p.events))
+	p.orderKey = sb.String()
+	return p.orderKey
+}
+
+func (pw *pathWalker) runLocked(s *pwState, mu *sync.Mutex) []*pwState {
+	pw.mu = mu
+	return pw.run(s)
 }
 
 func (pw *pathWalker) finish(s *pwState, end string, ret *ssa.Return) {
@@ -424,6 +524,12 @@ func (pw *pathWalker) finish(s *pwState, end string, ret *ssa.Return) {
 		for _, r := range ret.Results {
 			s.p.results = append(s.p.results, s.p.resolve(r))
 		}
+	}
+	if pw.mu != nil {
+		pw.mu.Lock()
+		pw.paths = append(pw.paths, s.p)
+		pw.mu.Unlock()
+		return
 	}
 	pw.paths = append(pw.paths, s.p)
 }
@@ -449,8 +555,6 @@ func (pw *pathWalker) run(s *pwState) []*pwState {
 					if v, ok := ins.(ssa.Value); ok {
 						delete(s.decided, v)
 						delete(s.p.consts, v)
-						delete(s.p.alias, v)
-						delete(s.p.tuples, v)
 					}
 				}
 				if !pw.unroll1 || s.visits[b] > 2 {
@@ -493,13 +597,47 @@ func (pw *pathWalker) run(s *pwState) []*pwState {
 		for s.idx < len(b.Instrs) {
 			ins := b.Instrs[s.idx]
 			s.idx++
+			if v, isVal := ins.(ssa.Value); isVal {
+				if _, isPhi := ins.(*ssa.Phi); !isPhi {
+					// the instruction is (re)computed now: forget what an earlier execution left behind
+					delete(s.p.alias, v)
+					delete(s.p.consts, v)
+					delete(s.p.tuples, v)
+					delete(s.decided, v)
+				}
+			}
 			switch x := ins.(type) {
 			case *ssa.Phi, *ssa.DebugRef:
 			case *ssa.Call:
 				callee := x.Call.StaticCallee()
-				if callee != nil && len(callee.Blocks) > 0 && s.frame.depth < pw.maxDepth && !s.inlined[callee] && pw.inline != nil && pw.inline(s.frame.fn, callee) && len(callee.Params) == len(x.Call.Args) {
+				onStack := false
+				for fr := s.frame; fr != nil; fr = fr.parent {
+					if fr.fn == callee {
+						onStack = true
+					}
+				}
+				if callee != nil && len(callee.Blocks) > 0 && s.frame.depth < pw.maxDepth && !onStack && pw.inline != nil && pw.inline(s.frame.fn, callee) && len(callee.Params) == len(x.Call.Args) {
+					if s.inlined[callee] {
+						// a second activation of the same function: its values are computed afresh
+						for _, cb := range callee.Blocks {
+							delete(s.visits, cb)
+							delete(s.arrived, cb)
+							for _, ci := range cb.Instrs {
+								if v, ok := ci.(ssa.Value); ok {
+									delete(s.decided, v)
+									delete(s.p.consts, v)
+								}
+							}
+						}
+					}
 					for i, prm := range callee.Params {
 						s.p.alias[prm] = s.p.resolve(x.Call.Args[i])
+					}
+					// a closure: its free variables are the cells bound where it was made
+					if mc, ok := s.p.resolve(x.Call.Value).(*ssa.MakeClosure); ok && len(mc.Bindings) == len(callee.FreeVars) {
+						for i, fv := range callee.FreeVars {
+							s.p.alias[fv] = s.p.resolve(mc.Bindings[i])
+						}
 					}
 					s.inlined[callee] = true
 					s.frame = &pwFrame{fn: callee, call: x, parent: s.frame, retBlock: b, retIdx: s.idx, depth: s.frame.depth + 1}
@@ -660,6 +798,32 @@ func (pw *pathWalker) run(s *pwState) []*pwState {
 						s.block = b.Succs[1]
 					}
 					goto nextBlock
+				}
+				// a nil test of a value whose nil-ness this path already knows (decided through another
+				// comparison instruction, e.g. inside a callee that was walked in line)
+				if bo, isBO := cond.(*ssa.BinOp); isBO && (bo.Op == token.EQL || bo.Op == token.NEQ) {
+					x, y := s.p.resolve(bo.X), s.p.resolve(bo.Y)
+					if isNilConst(x) {
+						x, y = y, x
+					}
+					if isNilConst(y) {
+						known, isNil := false, false
+						if s.p.knownNil(x) {
+							known, isNil = true, true
+						} else if s.p.knownNonNil(x) {
+							known, isNil = true, false
+						}
+						if known {
+							t := (isNil == (bo.Op == token.EQL)) != neg
+							s.pred, s.idx = b, 0
+							if t {
+								s.block = b.Succs[0]
+							} else {
+								s.block = b.Succs[1]
+							}
+							goto nextBlock
+						}
+					}
 				}
 				if t, ok := s.decided[cond]; ok {
 					t = t != neg
